@@ -30,7 +30,7 @@ type Recorder struct {
 	Exec func(Stmt) (*mysql.Result, error)
 	Fail error
 
-	Calls        int      // ExecuteSQLs + ExecuteSQL calls
+	Calls        int // ExecuteSQLs + ExecuteSQL calls
 	Maps         []map[string]map[string][]string
 	stmts        []Stmt
 	LastInsertID uint64
